@@ -262,6 +262,19 @@ class NoKill(set):  # type: ignore[type-arg]
         return None
 
 
+def find_call(stmts: list[dict[str, Any]]) -> dict[str, Any] | None:
+    """The `render 'a'` / `call m` statement of an iso case."""
+    for s in stmts:
+        if (s["t"] == "render" and s["name"][1] == "a") or (s["t"] == "call" and s["name"] == "m"):
+            return s
+        for key in ("body", "else"):
+            if isinstance(s.get(key), list):
+                got = find_call(s[key])
+                if got is not None:
+                    return got
+    return None
+
+
 def reads_binding(reads: set[tuple[str, str]], name: str, kind: str) -> bool:
     if kind in ("increment", "decrement"):
         return ("var", name) in reads or ("counter", name) in reads
@@ -309,7 +322,7 @@ class G:
         self.site = 0
         self.sites: dict[str, dict[str, Any]] = {}
         self.binders: list[tuple[str, str]] = []  # (name, construct) in generation order
-        self.exits: list[str] = []
+        self.exits: list[tuple[str, tuple[str, ...]]] = []  # (exit kind, scoping constructs it crosses)
         self.err_kind: str | None = None
         self.err_done = False
         self.err_path: list[str] = []
@@ -368,6 +381,10 @@ class G:
         if self.p(0.25):
             params.append(self.pick([n for n in POOL if n != p]))
         other = self.pick(POOL)
+        if f in ("uniq", "sort") and other == "forloop":
+            # comparing two ForLoop drops iterates them, i.e. advances the running loop (a defect of its own,
+            # reported separately): not a scoping matter, keep it out of the programs
+            other = p
         if f in PATH_ONLY:
             # `sum` of a string is a (legitimate) LiquidTypeError: keep its key numeric
             body: list[Any] = P(p) if f == "sum" else P(self.pick([p, p, other]))
@@ -401,9 +418,16 @@ class G:
         self.sites[str(sid)] = {
             "kind": kind,
             "binders": sorted({f"{n}={k}" for n, k in self.binders[b0:]}),
-            "exits": sorted(set(self.exits[x0:])),
+            "exits": sorted({e for e, _ in self.exits[x0:]}),
+            "crossed": sorted({c for _, cs in self.exits[x0:] for c in cs}),
         }
         return [T(f"{S_OPEN}{sid}:"), *probe("P"), T(S_CLOSE), *inner, T(f"{A_OPEN}{sid}:"), *probe("P"), T(A_CLOSE)]
+
+    def crossed(self, C: Ctx, extra: tuple[str, ...] = ()) -> tuple[str, ...]:
+        """Scoping constructs between this position and the loop that a break / continue here leaves."""
+        path = list(C.path)
+        idx = max((i for i, c in enumerate(path) if c in ("for", "tablerow")), default=-1)
+        return tuple(c for c in path[idx + 1:] + list(extra) if c not in ("if", "capture"))
 
     # ----------------------------------------------------------------- errors
 
@@ -528,7 +552,7 @@ class G:
             return paired([{"t": "translate", "args": [[n, self.val()]], "text": f"t {{{{ {n} }}}} {{{{ {other} }}}}"}],
                           "translate")
         if k in ("break", "continue"):
-            self.exits.append(k)
+            self.exits.append((k, self.crossed(C)))
             s = {"t": k}
             r = self.i(0, 3)
             if r == 0:
@@ -537,9 +561,10 @@ class G:
             return [IF(cond, [s])]
         if k == "ibreak":
             ex = self.pick(["break", "continue"])
-            self.exits.append(ex + "-include")
             body: list[dict[str, Any]] = [{"t": ex}]
-            if self.p(0.5):
+            inner_with = self.p(0.5)
+            self.exits.append((ex + "-include", self.crossed(C, ("include", "with") if inner_with else ("include",))))
+            if inner_with:
                 n = self.pick(POOL)
                 self.binders.append((n, "with"))
                 body = [{"t": "with", "args": [[n, self.lit()]], "body": body}]
@@ -1063,9 +1088,13 @@ def diff_fields(a: str, b: str) -> list[str]:
     return sorted({FIELD_NAME.get(k, k) for k in set(pa) | set(pb) if pa.get(k) != pb.get(k)})
 
 
-def constructs_for(names: list[str], binders: list[str], fallback: str) -> str:
+def constructs_for(names: list[str], binders: list[str], fallback: str, crossed: list[str] | None = None) -> str:
+    """The constructs that bind the given names (preferring those crossed by a break / continue)."""
     kinds = sorted({b.split("=", 1)[1] for b in binders if b.split("=", 1)[0] in names})
-    return "+".join(kinds) if kinds else fallback
+    if crossed:
+        pref = [k for k in kinds if k.split("-")[0] in crossed]
+        kinds = pref or kinds
+    return "+".join(kinds[:2]) + ("+more" if len(kinds) > 2 else "") if kinds else fallback
 
 
 # --------------------------------------------------------------------------- the property
@@ -1105,6 +1134,37 @@ class C07(Prop):
 
     def budget_s(self, tier: str) -> float:
         return 240 if tier == "quick" else 3000
+
+    def enumerate(self, tier: str, disabled: frozenset[str]):
+        """A few fixed programs: the documented argument forms with and without any globals."""
+
+        def iso(callee: str, main: list[dict[str, Any]], a: list[dict[str, Any]], expect: dict[str, Any],
+                data: dict[str, Any], mode: str) -> dict[str, Any]:
+            vary = {"t": "var", "who": "caller:1", "a": [ASSIGN("x", ["int", 1])], "b": [ASSIGN("x", ["int", 2])]}
+            eff = {"t": "var", "who": "callee:2", "a": [ASSIGN("b", ["int", 3])], "b": [ASSIGN("b", ["int", 4])]}
+            body = probe("L") + a + [eff]
+            head = []
+            templates: dict[str, Any] = {"b": [T("included")]}
+            if callee == "render":
+                templates["a"] = body
+            else:
+                head = [{"t": "macro", "name": "m", "params": [["a", None], ["c", ["int", 7]]], "body": body}]
+            return {"kind": "iso", "callee": callee, "cctx": "top", "wrappers": [], "outer_bound": False,
+                    "main": head + [vary, T(S_OPEN), *main, T(S_CLOSE), *probe("R")], "templates": templates,
+                    "data": data, "varied_caller": [["x", "assign", 1]], "varied_callee": [["b", "assign", 2]],
+                    "expect": expect, "mode": mode}
+
+        for data in ({}, {"c": 11}):
+            for mode in ("sync", "async"):
+                yield iso("render", [{"t": "render", "name": ["str", "a"], "var": ["int", 5], "loop": False,
+                                      "args": []}], [], {"a": "5"}, data, mode)
+                yield iso("render", [{"t": "render", "name": ["str", "a"], "var": ["range", ["int", 2], ["int", 3]],
+                                      "loop": True, "alias": "x", "args": []}], [], {"x": ["2", "3"], "fi": "1"},
+                          data, mode)
+                yield iso("render", [{"t": "render", "name": ["str", "a"], "args": [["x", ["str", "p"]]]}], [],
+                          {"x": "p"}, data, mode)
+                yield iso("call", [{"t": "call", "name": "m", "args": [["int", 1]], "kwargs": [["k", ["int", 2]]]}],
+                          [], {"a": "1", "c": "7", "kw": "2"}, data, mode)
 
     # ------------------------------------------------------------------ running
 
@@ -1164,15 +1224,22 @@ class C07(Prop):
         templates = {k: resolve(v, {}) for k, v in case["templates"].items()}
         callee_reads: set[tuple[str, str]] = set()
         caller_reads: set[tuple[str, str]] = set()
-        if ck == "render":
-            stmt_reads(templates["a"], templates, frozenset(), set(), callee_reads)
         caller_frag = templates.get("c", src_main)
         for s in caller_frag + src_main:
-            if s["t"] == "macro":
-                if s["name"] == "m":
-                    stmt_reads(s["body"], templates, frozenset(q[0] for q in s["params"]), set(), callee_reads)
-                else:
-                    caller_frag = s["body"]
+            if s["t"] == "macro" and s["name"] != "m":
+                caller_frag = s["body"]
+        call = find_call(caller_frag)
+        if ck == "render" and call is not None:
+            own = {k for k, _ in call.get("args") or []}
+            if call.get("var") is not None:
+                own.add(call.get("alias") or "a")
+                if call.get("loop"):
+                    own.add("forloop")
+            stmt_reads(templates["a"], templates, frozenset(own), set(), callee_reads)
+        for s in caller_frag:
+            if s["t"] == "macro" and s["name"] == "m":
+                own = {q[0] for q in s["params"]} | {"args", "kwargs"}
+                stmt_reads(s["body"], templates, frozenset(own), set(), callee_reads)
         # the caller's reads after the call: everything in the caller fragment (probes R/Q read the whole pool)
         stmt_reads([s for s in caller_frag if s["t"] != "macro"], {k: v for k, v in templates.items() if k == "b"},
                    frozenset(), NoKill(), caller_reads)
@@ -1312,7 +1379,7 @@ class C07(Prop):
             res.labels.append(f"O4:{info['kind']}:{'+'.join(info['exits']) or 'normal'}")
             if want != text:
                 names = diff_fields(want, text)
-                cons = constructs_for(names, info["binders"], info["kind"])
+                cons = constructs_for(names, info["binders"], info["kind"], info.get("crossed"))
                 res.fail("O4", f"block-leak:{cons}:{'+'.join(info['exits']) or 'normal'}",
                          f"names {names} read {want!r} before and {text!r} after the {info['kind']} block "
                          f"(site {sid}); {self._show(case)}")
@@ -1332,7 +1399,7 @@ class C07(Prop):
             if e0 != e1:
                 bad = next((x for x, y in zip(e0, e1) if x != y), None)
                 names = diff_fields(bad[2], next(y for x, y in zip(e0, e1) if x != y)[2]) if bad else []
-                cons = constructs_for(names, info["binders"], info["kind"])
+                cons = constructs_for(names, info["binders"], info["kind"], info.get("crossed"))
                 res.fail("O4-delete", f"block-leak:{cons}:{'+'.join(info['exits']) or 'normal'}",
                          f"deleting the {info['kind']} block changes probes outside it: first difference {bad!r} "
                          f"(names {names}); {self._show(case)}")
